@@ -285,21 +285,35 @@ _POS = {'NotEq': 'Eq', 'IsNot': 'Is', 'NotIn': 'In'}
 MAX_ATOMS = 14
 
 
+def _orient(a):
+    """operands of a comparison in the order of their digests *as they are now* (inside _phitable the operands have just been
+    rewritten, so the order an earlier _resort gave them is stale)"""
+    if a[0] == 'cmp' and a[1] in _FLIP and digest(a[3]) < digest(a[2]):
+        return ('cmp', _FLIP[a[1]], a[3], a[2])
+    return a
+
+
+def _atom_of(c):
+    """(atom, negated) of a leaf of a boolean formula: != / is not / not in are the negation of their positive form; with integer
+    operands `a <= b` is exactly `not a > b`"""
+    if c[0] == 'cmp' and c[1] in _POS:
+        return _orient(('cmp', _POS[c[1]], c[2], c[3])), True
+    if c[0] == 'cmp' and c[1] in _INT_NEG and is_int_term(c[2]) and is_int_term(c[3]):
+        return _orient(mkcmp(_INT_NEG[c[1]], c[2], c[3])), True
+    return _orient(c), False
+
+
 def _bool_atoms(c, out):
     """the atoms of a condition seen as a boolean formula (and / or / not / != / is not / not in are structure)"""
     if c[0] == 'bool' and c[1] in ('And', 'Or'):
         _bool_atoms(c[2], out); _bool_atoms(c[3], out)
     elif c[0] == 'un' and c[1] == 'Not':
         _bool_atoms(c[2], out)
-    elif c[0] == 'cmp' and c[1] in _POS:
-        out.setdefault(digest(('cmp', _POS[c[1]], c[2], c[3])), ('cmp', _POS[c[1]], c[2], c[3]))
-    elif c[0] == 'cmp' and c[1] in _INT_NEG and is_int_term(c[2]) and is_int_term(c[3]):
-        a = mkcmp(_INT_NEG[c[1]], c[2], c[3])           # integer operands: a <= b is exactly not a > b
-        out.setdefault(digest(a), a)
     elif c[0] == 'const' and isinstance(c[1], bool):
         pass
     else:
-        out.setdefault(digest(c), c)
+        a, _ = _atom_of(c)
+        out.setdefault(digest(a), a)
 
 
 def _bool_eval(c, val):
@@ -309,13 +323,10 @@ def _bool_eval(c, val):
         return _bool_eval(c[2], val) or _bool_eval(c[3], val)
     if c[0] == 'un' and c[1] == 'Not':
         return not _bool_eval(c[2], val)
-    if c[0] == 'cmp' and c[1] in _POS:
-        return not val[digest(('cmp', _POS[c[1]], c[2], c[3]))]
-    if c[0] == 'cmp' and c[1] in _INT_NEG and is_int_term(c[2]) and is_int_term(c[3]):
-        return not val[digest(mkcmp(_INT_NEG[c[1]], c[2], c[3]))]
     if c[0] == 'const' and isinstance(c[1], bool):
         return c[1]
-    return val[digest(c)]
+    a, neg = _atom_of(c)
+    return val[digest(a)] != neg
 
 
 def _phitable(t):
@@ -456,20 +467,31 @@ class Summary:
             _terms.INT_TERMS = set()
 
     def _build(self, prog, eff, f: Func):
+        from . import terms as _terms
         self.f = f
         r = Recon(prog, eff, f).run()
         # a term that the function uses as a scalar index of an array is an integer wherever it occurs
         ints = set()
+        def _add_int(c_, depth_=0):
+            if isinstance(c_, tuple) and c_ and c_[0] in ('idx', 'phi', 'carried', 'after') and depth_ < 6:
+                try:
+                    ints.add(_terms.int_shape(c_))
+                except TypeError:
+                    return
+                if depth_ == 0:
+                    try:
+                        _add_int(_simplify2(c_), 1)         # the spelling it has once tuple packing and the like are simplified away
+                    except Exception:
+                        pass
+                if c_[0] == 'phi':          # a selected value that is an integer is one in either arm
+                    _add_int(c_[2], depth_ + 1)
+                    _add_int(c_[3], depth_ + 1)
         def _collect(d_):
             for x_ in walk(d_):
                 if x_[0] == 'idx' and len(x_) >= 3 and isinstance(x_[2], tuple):
                     comps = x_[2][1] if x_[2][0] == 'tuple' else (x_[2],)
                     for c_ in comps:
-                        if isinstance(c_, tuple) and c_ and c_[0] in ('idx', 'phi', 'carried', 'after'):
-                            try:
-                                ints.add(c_)
-                            except TypeError:
-                                pass
+                        _add_int(c_)
         for ev_ in r.events:
             for d_ in ev_.data:
                 if isinstance(d_, tuple):
